@@ -249,7 +249,7 @@ def fake_companion_protocol(reject, seen):
     return FakeCompanionProtocol
 
 
-async def _build(spec, fail=()):
+async def _build(spec, fail=(), transform=None):
     """Run the real `pyatv.connect()` for a configuration.  Only `pyatv.PROTOCOLS` is wrapped:
     each protocol's real `setup(core)` is called with the Core pyatv.connect created and wired
     (takeover method, dispatcher, device listener), and every SetupData it yields is passed on
@@ -296,6 +296,8 @@ async def _build(spec, fail=()):
         def setup(core):
             cores[proto] = core
             for sd in methods.setup(core):
+                if transform is not None:       # harness: other instances for this protocol (synthetic protocol classes)
+                    sd = transform(proto, sd)
                 k = len(queue)
                 queue.append((proto, sd))
                 if device is not None and sd.protocol == Protocol.Companion and k not in fail:
@@ -324,14 +326,14 @@ async def _build(spec, fail=()):
     return built
 
 
-def build_world(loop=None, spec=None, fail=()):
+def build_world(loop=None, spec=None, fail=(), transform=None):
     """Connect (without network) to the device described by `spec` through pyatv.connect()."""
     spec = spec or default_spec()
     if loop is not None:
-        return loop.run_until_complete(_build(spec, fail))
+        return loop.run_until_complete(_build(spec, fail, transform))
     loop = asyncio.new_event_loop()
     try:
-        return loop.run_until_complete(_build(spec, fail))
+        return loop.run_until_complete(_build(spec, fail, transform))
     finally:
         loop.close()
 
